@@ -77,7 +77,7 @@ static void compare(const std::string& model, const std::string& what, const std
 }
 
 static void check_mssm(const MSSMNoFV_onshell& m, const J& c, const std::string& how) {
-   const Ref1L r = mssm_ref(m.get_g1(), m.get_g2(), m.get_vd(), m.get_vu(), m.get_Mu(), m.get_MassB(), m.get_MassWB(), m.get_ml2(1, 1), m.get_me2(1, 1), m.get_Ye(1, 1), m.get_TYe(1, 1), m.get_MM());
+   const Ref1L r = mssm_ref(m.get_g1(), m.get_g2(), m.get_vd(), m.get_vu(), m.get_Mu(), m.get_MassB(), m.get_MassWB(), m.get_ml2(1, 1), m.get_me2(1, 1), m.get_Ye(1, 1), m.get_Ye(1, 1) * m.get_Ae(1, 1), m.get_MM());
    if (!r.ok) { ++out->inconclusive; out->count("mssm-reference-not-applicable(tachyon)"); return; }
    const std::string cell = how + "|sgn" + (m.get_Mu() > 0 ? "+" : "-") + (m.get_MassB() > 0 ? "+" : "-") + (m.get_MassWB() > 0 ? "+" : "-") + "|tb" + vh::decade(m.get_TB());
    const double l0 = amu1LChi0(m), lc = amu1LChipm(m), lt = calculate_amu_1loop(m);
@@ -101,7 +101,7 @@ static void case_mssm(vh::Rng& r) {
    // non-resummed: the reference evaluates the converted copy's parameters
    try {
       MSSMNoFV_onshell t(m); t.convert_to_non_tan_beta_resummed();
-      const Ref1L rr = mssm_ref(t.get_g1(), t.get_g2(), t.get_vd(), t.get_vu(), t.get_Mu(), t.get_MassB(), t.get_MassWB(), t.get_ml2(1, 1), t.get_me2(1, 1), std::sqrt(2.0) * t.get_MM() / t.get_vd(), t.get_TYe(1, 1), t.get_MM());
+      const Ref1L rr = mssm_ref(t.get_g1(), t.get_g2(), t.get_vd(), t.get_vu(), t.get_Mu(), t.get_MassB(), t.get_MassWB(), t.get_ml2(1, 1), t.get_me2(1, 1), std::sqrt(2.0) * t.get_MM() / t.get_vd(), (std::sqrt(2.0) * t.get_MM() / t.get_vd()) * t.get_Ae(1, 1), t.get_MM());
       if (rr.ok) compare("MSSM", "non-tan-beta-resummed-sum", "onshell-input", calculate_amu_1loop_non_tan_beta_resummed(m), rr.chi0 + rr.cha, rr.s_chi0 + rr.s_cha, c);
    } catch (const Error&) { out->count("non-resummed-spectrum-rejected"); }
    // a re-used object: the calculated model, some parameters changed through the setters (as in a scan loop), recalculated
